@@ -11,6 +11,7 @@
 //	     datagram number i when bit i of the mask is set
 //	run <ms>                  let virtual time pass
 //	garbage <n>               the "client" sends n undecryptable bytes attributed to the connection (short header, the server's connection ID)
+//	pinginitial               the "client" sends a well-protected small Initial packet carrying PING (ack-eliciting: an ACK becomes pending)
 //	badinitial                the "client" sends a well-protected small Initial packet carrying a frame that is not allowed (forces a local close)
 //	closeserver               Listener.Close(): handshaking connections are refused
 //
@@ -171,8 +172,7 @@ type runner struct {
 	cancel   context.CancelFunc
 	started  bool
 	closed   bool
-	// generator state
-	step int
+	injPN    protocol.PacketNumber
 }
 
 func newRunner(r *vh.Rand) vh.Runner { return &runner{} }
@@ -204,13 +204,15 @@ func (rn *runner) GenOp(r *vh.Rand, i int) string {
 	if i == 1 {
 		return "run 1000"
 	}
-	switch r.Pick(50, 20, 12, 18) {
+	switch r.Pick(45, 15, 10, 15, 15) {
 	case 0:
 		return fmt.Sprintf("run %d", []int64{1, 10, 100, 300, 1000, 3000}[r.Intn(6)])
 	case 1:
 		return fmt.Sprintf("garbage %d", []int64{25, 40, 100, 400, 1200}[r.Intn(5)])
 	case 2:
 		return "badinitial"
+	case 3:
+		return "pinginitial"
 	default:
 		return "closeserver"
 	}
@@ -290,7 +292,18 @@ func (rn *runner) Exec(op string) string {
 		if scid.Len() == 0 || odcid.Len() == 0 {
 			return rn.res("skip")
 		}
-		rn.rt.inject(badInitial(odcid, scid, cscid, v), "")
+		rn.injPN++
+		rn.rt.inject(smallInitial(odcid, scid, cscid, v, []byte{0x1e, 0, 0, 0, 0, 0, 0, 0}, 1000+rn.injPN), "") // HANDSHAKE_DONE + PADDING
+		return rn.res("ok")
+	case "pinginitial":
+		rn.rt.mu.Lock()
+		scid, odcid, cscid, v := rn.rt.serverSCID, rn.rt.origDCID, rn.rt.clientSCID, rn.rt.version
+		rn.rt.mu.Unlock()
+		if scid.Len() == 0 || odcid.Len() == 0 {
+			return rn.res("skip")
+		}
+		rn.injPN++
+		rn.rt.inject(smallInitial(odcid, scid, cscid, v, []byte{0x01, 0, 0, 0, 0, 0, 0, 0}, 1000+rn.injPN), "") // PING + PADDING
 		return rn.res("ok")
 	case "closeserver":
 		if rn.closed {
@@ -303,22 +316,21 @@ func (rn *runner) Exec(op string) string {
 	return "bad-op"
 }
 
-// badInitial builds a correctly protected client Initial packet whose payload is a HANDSHAKE_DONE frame
-// (not allowed in Initial packets, and never sent by a client): the server closes with a transport error.
-func badInitial(odcid, dcid, scid protocol.ConnectionID, v protocol.Version) []byte {
+// smallInitial builds a correctly protected client Initial packet with the given payload. HANDSHAKE_DONE is
+// not allowed in Initial packets (and never sent by a client): the server closes with a transport error.
+func smallInitial(odcid, dcid, scid protocol.ConnectionID, v protocol.Version, payload []byte, pn protocol.PacketNumber) []byte {
 	sealer, _ := handshake.NewInitialAEAD(odcid, protocol.PerspectiveClient, v)
-	payload := []byte{0x1e, 0, 0, 0, 0, 0, 0, 0} // HANDSHAKE_DONE + PADDING
 	hdr := &wire.ExtendedHeader{
 		Header: wire.Header{Type: protocol.PacketTypeInitial, DestConnectionID: dcid, SrcConnectionID: scid, Version: v,
 			Length: protocol.ByteCount(4 + len(payload) + sealer.Overhead())},
-		PacketNumber: 1000, PacketNumberLen: protocol.PacketNumberLen4,
+		PacketNumber: pn, PacketNumberLen: protocol.PacketNumberLen4,
 	}
 	raw, err := hdr.Append(nil, v)
 	if err != nil {
 		return []byte{0x40}
 	}
 	hdrLen := len(raw)
-	sealed := sealer.Seal(nil, payload, 1000, raw[:hdrLen])
+	sealed := sealer.Seal(nil, payload, pn, raw[:hdrLen])
 	raw = append(raw[:hdrLen:hdrLen], sealed...)
 	pnOffset := hdrLen - 4
 	sealer.EncryptHeader(raw[pnOffset+4:pnOffset+4+16], &raw[0], raw[pnOffset:pnOffset+4])
